@@ -100,6 +100,7 @@ private theorem inv_step (hist : List Event) (s : St) (e : Event) (h : Inv hist 
       | true =>
         have := ext s rfl rfl rfl (.act (.requestPortForward true)) (by intro h; cases h)
         exact ⟨this.1, this.2.1, fun _ => ⟨hist, [], by simp, by simp⟩⟩
+    | otherRequest g => exact ext _ rfl rfl rfl _ (by intro h; cases h)
     | cancelPortForward =>
       refine ⟨fun hx => List.mem_append_left _ (h1 hx), fun hx => List.mem_append_left _ (h2 hx), ?_⟩
       intro hx
@@ -177,5 +178,8 @@ example : (handle (run init [.act (.requestPortForward true), .act .cancelPortFo
 example : (handle (run init [.act .requestForwardAgent]).1 (.channelOpen (str "session") 0)).2 = .openFailure 0 1 := by
   decide +kernel
 example : (handle init (.channelRequest (str "exit-status") true)).2 = .channelSuccess := by decide +kernel
+-- an earlier granted request on the channel, then an x11 request that ends without CHANNEL_SUCCESS: still refused
+example : (handle (run init [.act (.otherRequest true), .act (.requestX11 false)]).1 (.channelOpen kX11 3)).2
+    = .openFailure 3 1 := by decide +kernel
 
 end PV.Props.C18
